@@ -92,13 +92,17 @@ def run(prog, R):
     for b in prog.bodies.values():
         if is_derive(b) or not (b.file.endswith('fasta.rs') or b.file.endswith('fastq.rs')):
             continue
-        if not is_u8_slice_ref(b.local_tys[0]):
+        opt_ret = re.sub(r"'\w+ ", '', b.local_tys[0]).replace(' ', '') == 'std::option::Option<&[u8]>'
+        if not is_u8_slice_ref(b.local_tys[0]) and not opt_ret:
             continue
         slices = [(x, t) for x, t in b.calls() if t.callee and t.callee.path in SLICE_INDEX and 'Range' in ' '.join(t.callee.targs + [b.local_tys[t.args[1].place.local] if not t.args[1].is_const else ''])]
         if not slices:
             continue
         line_sites.append(b)
-        rs = roots_of(b, Place({'l': 0, 'p': []}))
+        rs = roots_of(b, Place({'l': 0, 'p': []}), suffix0=((0, '0', 'Some'),) if opt_ret else ())
+        if opt_ret:
+            # payload of every Some(..) that is returned (the None of `?` has no payload)
+            rs = [r for r in rs if not (r[0] == 'call' and r[1].callee and r[1].callee.path == 'std::ops::FromResidual::from_residual')]
         ok = bool(rs) and all((r[0] == 'call' and is_trim_call(r[1]) and not r[-1]) or r[0] == 'const' for r in rs)
         R.add('TRIM-1', b, 'line-site', ok, site(b, b.span['lo']),
               'returned slice <- %s' % [(r[1].callee.target_path() if r[0] == 'call' else r[0]) for r in rs])
@@ -337,16 +341,27 @@ def epos_rules(prog, R, trimmer):
                                     okn = trimmed
                                     lens[nm] = lt
                         R.add('EPOS-3', b, 'reported-%s' % nm, okn, site(b, s.line), 'field %s <- len(trimmed accessor `%s`): %s' % (nm, nm, okn))
-                    sw = controlling_switches(b, blk.idx)
                     decided = False
-                    for a in sw:
-                        t = b.blocks[a].term
-                        deps = data_deps(b, t.discr, du)
-                        dep_terms = set(id(r[1]) for r in deps if r[0] == 'call')
-                        if lens and all(id(lt) in dep_terms for lt in lens.values()) and len(lens) == 2:
-                            decided = True
+                    if len(lens) == 2:
+                        lt_ids = set(id(x) for x in lens.values())
+                        for a in b.cfg.reachable:
+                            t = b.blocks[a].term
+                            if t.k != 'switch':
+                                continue
+                            for r in roots_of(b, t.discr, du):
+                                if r[0] == 'bin' and r[1].rv.j['op'] in ('Ne', 'Eq'):
+                                    ids = set()
+                                    for o in r[1].rv.ops:
+                                        for q in roots_of(b, o, du):
+                                            if q[0] == 'call':
+                                                ids.add(id(q[1]))
+                                    if ids == lt_ids:
+                                        ne_edge = t.otherwise if r[1].rv.j['op'] == 'Ne' else [tg for v, tg in t.targets if v == 0][0]
+                                        # every path to the error passes the "lengths differ" edge
+                                        if ne_edge != a and b.cfg.dominates(ne_edge, blk.idx):
+                                            decided = True
                     R.add('LEN-1', b, 'verdict-on-reported-lengths', decided, site(b, s.line),
-                          'the UnequalLengths branch %s on the trimmed lengths it reports' % ('is decided' if decided else 'is NOT decided (raw line extents only: a CRLF record without final terminator is rejected with seq == qual)'))
+                          'the UnequalLengths error %s' % ('is reached only through "trimmed seq length != trimmed qual length" (the lengths it reports)' if decided else 'can be reached without the trimmed lengths having been compared (e.g. on raw line extents only: a CRLF record without final terminator is rejected with seq == qual)'))
     for v in ('InvalidStart', 'InvalidSep', 'UnequalLengths', 'UnexpectedEnd'):
         if count.get(v, 0) < 1:
             R.add('EPOS-1', 'fastq', 'constructed:%s' % v, False, 'src/fastq.rs', 'no construction of fastq::Error::%s found' % v)
@@ -611,10 +626,29 @@ def view_rules(prog, R, trimmer):
             return None
         f1, f2 = inner(nx, 'next'), inner(nb, 'next_back')
         R.add('VIEW-1', nx, 'same-inner-iterator', f1 is not None and f1 == f2 and bool(f1), site(nx, nx.span['lo']), 'next() steps %s, next_back() steps %s' % (f1, f2))
-        c1 = [c for c in prog.closures_of(nx)]
-        c2 = [c for c in prog.closures_of(nb)]
-        ok = len(c1) == 1 and len(c2) == 1 and norm_body(c1[0]) == norm_body(c2[0])
-        R.add('VIEW-1', nx, 'same-mapping', ok, site(nx, nx.span['lo']), 'the closures mapped over the offsets are identical up to renaming: %s' % ok)
+        def mapping_sig(fn):
+            """signature of how an item is turned into a line: for every slicing of the data in the
+            function (or its closures): (bounds arithmetic as op/const multiset, trimmed?)"""
+            sig = []
+            for body in [fn] + prog.closures_of(fn):
+                du = DefUse(body)
+                for x, t in body.calls():
+                    if t.callee and t.callee.path in SLICE_INDEX and len(t.args) == 2:
+                        rng = roots_of(body, t.args[1], du)
+                        arith = []
+                        for r in rng:
+                            if r[0] == 'agg':
+                                for o in r[1].rv.ops:
+                                    for d in data_deps(body, o, du):
+                                        if d[0] == 'bin':
+                                            arith.append((d[1].rv.j['op'], tuple(sorted(str(z.const_int()) for z in d[1].rv.ops if z.const_int() is not None))))
+                                arith.append(('range', r[1].rv.j.get('adt', '').rsplit('::', 1)[-1]))
+                        trimmed = any(k == 'call' and tt.callee and prog.local_callee_body(tt.callee) is trimmer for (k, tt, i, via) in forward_sinks(body, t.dest.local)) if trimmer is not None else False
+                        sig.append((tuple(sorted(arith)), trimmed))
+            return sorted(sig)
+        s1, s2 = mapping_sig(nx), mapping_sig(nb)
+        ok = bool(s1) and s1 == s2
+        R.add('VIEW-1', nx, 'same-mapping', ok, site(nx, nx.span['lo']), 'line computation of next(): %s ; of next_back(): %s' % (s1, s2))
     # VIEW-2
     try:
         fs = prog.get('fasta::RefRecord::full_seq')
@@ -690,7 +724,7 @@ def view_rules(prog, R, trimmer):
 
 # --------------------------------------------------------------------------- ITER
 
-ALLOWED_ITER_TY = re.compile(r"^(std::(slice::Iter|iter::Zip|iter::Skip|iter::Take|iter::Rev|iter::Enumerate)|<|>|,|\s|'\w+|usize|u8|&|mut|(fasta|fastq)::BufferPosition)+$")
+ALLOWED_ITER_TY = re.compile(r"^(std::(slice::Iter|iter::Zip|iter::Skip|iter::Take|iter::Rev|iter::Enumerate|slice::Windows|slice::Chunks|slice::ChunksExact)|<|>|,|\s|'\w+|usize|u8|&|mut|(fasta|fastq)::BufferPosition)+$")
 
 
 def iter_rules(prog, R):
@@ -706,7 +740,7 @@ def iter_rules(prog, R):
         inner_fields = []
         for fd in adt['variants'][0]['fields']:
             ty = fd['ty']
-            if 'Iter' in ty or 'iter::' in ty:
+            if 'Iter' in ty or 'iter::' in ty or 'slice::Windows' in ty or 'slice::Chunks' in ty:
                 ok = bool(ALLOWED_ITER_TY.match(ty))
                 inner_fields.append(fd['name'])
                 R.add('ITER-2', self_ty, 'field:%s' % fd['name'], ok, adt['span']['file'], 'inner iterator type %s is a std slice iterator (fused, exact size) or an adaptor of one: %s' % (ty, ok))
@@ -720,14 +754,29 @@ def iter_rules(prog, R):
             if not bs:
                 continue
             b = bs[0]
-            rs = roots_of(b, Place({'l': 0, 'p': []}), through_calls=lambda c: 0 if c and c.path in ('std::option::Option::map',) else None)
-            ok = bool(rs) and all(r[0] == 'call' and r[1].callee.name == meth for r in rs)
-            recv_ok = False
-            for r in rs:
-                if r[0] == 'call':
-                    rr = roots_of(b, r[1].args[0])
-                    recv_ok = all(q[0] == 'arg' and q[1] == 1 and q[-1] and q[-1][0][1] in inner_fields for q in rr) and bool(rr)
-            R.add('ITER-2', b, 'delegates-%s' % meth, ok and recv_ok, site(b, b.span['lo']), '%s() is the mapped %s() of the wrapped iterator: %s' % (meth, meth, ok and recv_ok))
+            # the returned item derives from exactly one step of the wrapped iterator (through
+            # Option::map / `?` / match — any shape)
+            steps = []
+            for x, t in b.calls():
+                if t.callee and t.callee.name in ('next', 'next_back', 'nth', 'nth_back', 'last') and t.args:
+                    rr = roots_of(b, t.args[0])
+                    on_inner = bool(rr) and all(q[0] == 'arg' and q[1] == 1 and q[-1] and q[-1][0][1] in inner_fields for q in rr)
+                    if on_inner or 'iter' in t.callee.path.lower():
+                        steps.append((t, on_inner))
+            one = len(steps) == 1 and steps[0][1] and steps[0][0].callee.name == meth
+            feeds = False
+            if one:
+                deps = data_deps(b, Place({'l': 0, 'p': []}))
+                feeds = any(d[0] == 'call' and d[1] is steps[0][0] for d in deps)
+                # closures mapped over the item count as deriving from it
+                if not feeds:
+                    for (k, tt, i, via) in forward_sinks(b, steps[0][0].dest.local, through={'std::ops::Try::branch'}):
+                        if k == 'call' and tt.callee and tt.callee.path in ('std::option::Option::map',) and tt.dest.local == 0:
+                            feeds = True
+                        if k == 'ret':
+                            feeds = True
+            R.add('ITER-2', b, 'delegates-%s' % meth, one and feeds, site(b, b.span['lo']),
+                  '%s() takes exactly one %s() step of the wrapped iterator and returns an item derived from it: %s' % (meth, meth, one and feeds))
         # ITER-1: overridden size_hint / len
         for tr, meth in (('std::iter::Iterator', 'size_hint'), ('std::iter::ExactSizeIterator', 'len')):
             key = '<%s as %s>::%s' % (self_ty, tr, meth)
